@@ -2,11 +2,12 @@ import Lean
 import H2V.Lemmas.ConnResetPSend
 import H2V.Lemmas.ConnResetPClone
 /-
-  ConnResetP — `Evolves SRel RInv` for `pop_frame`, `reclaim_frame`, `buffer_pending` (prioritize.rs).
+  ConnResetP — `Evolves (SRel D) RInv` for `pop_frame`, `reclaim_frame`, `buffer_pending` (prioritize.rs).
 -/
 set_option linter.unusedSectionVars false
 namespace H2V.Lemmas.ConnResetP
 open H2V H2V.Model H2V.Model.Conn
+variable {D : Nat → Prop}
 
 set_option allowUnsafeReducibility true in
 attribute [local reducible] Streams.stream Store.getD'
@@ -53,10 +54,10 @@ theorem sendDataG_core (inst : ∀ p q : Nat, Decidable (p < q)) (x : Stream) (a
   | isTrue h =>
     simp only [if_pos h]
     have := coreEq_notifyCapacity { x with sendFlow := fl, bufferedSendData := wrapSubUsize x.bufferedSendData a, requestedSendCapacity := wrapSubU32 x.requestedSendCapacity a }
-    exact ⟨this.key, this.id, this.state, this.pendingSend⟩
+    exact ⟨this.key, this.id, this.state, this.pendingSend, this.refCount⟩
   | isFalse h =>
     simp only [if_neg h]
-    exact ⟨rfl, rfl, rfl, rfl⟩
+    exact ⟨rfl, rfl, rfl, rfl, rfl⟩
 
 theorem coreEq_sendData (x : Stream) (a b : Nat) : CoreEq x (x.sendData a b).1 := by
   rw [sendData_eq_G]; exact sendDataG_core _ x a b
@@ -80,12 +81,12 @@ theorem decContentLength_core {st st1 : Stream} {n : Nat} (h : st.decContentLeng
   unfold Stream.decContentLength at h
   split at h
   · split at h
-    · cases h; exact ⟨rfl, rfl, rfl, rfl⟩
+    · cases h; exact ⟨rfl, rfl, rfl, rfl, rfl⟩
     · cases h
   · split at h
     · cases h
-    · cases h; exact ⟨rfl, rfl, rfl, rfl⟩
-  · cases h; exact ⟨rfl, rfl, rfl, rfl⟩
+    · cases h; exact ⟨rfl, rfl, rfl, rfl, rfl⟩
+  · cases h; exact ⟨rfl, rfl, rfl, rfl, rfl⟩
 
 macro_rules
   | `(tactic| ev_step) =>
@@ -97,7 +98,7 @@ theorem resetCount_tail_le {l rest : List SFrame} {f : SFrame} (h : l = f :: res
 /-- popping / replacing the queue by a tail of itself -/
 macro_rules
   | `(tactic| ev_step) =>
-    `(tactic| (with_reducible refine Evolves.mod_queue ?_ _ _ (fun _ => rfl) (fun _ => rfl) (fun _ => rfl) ?hq;
+    `(tactic| (with_reducible refine Evolves.mod_queue ?_ _ _ (fun _ => rfl) (fun _ => rfl) (fun _ => rfl) (fun _ => rfl) ?hq;
                case hq => with_reducible exact resetCount_tail_le (by assumption)))
 
 /-- the implicit reset of a scheduled stream is materialised -/
@@ -107,8 +108,8 @@ macro_rules
                case hs => with_reducible exact isScheduledReset_of_get (by assumption)))
 
 theorem popFrameC_sr (sd : Stream → Nat → Nat → Stream × List String × Bool) (hsd : ∀ (x : Stream) (a b : Nat), CoreEq x (sd x a b).1)
-    (fuel : Nat) (maxLen : Nat) (h : Evolves SRel RInv a s.store) :
-    Evolves SRel RInv a (popFrameC sd fuel s maxLen).1.store := by
+    (fuel : Nat) (maxLen : Nat) (h : Evolves (SRel D) RInv a s.store) :
+    Evolves (SRel D) RInv a (popFrameC sd fuel s maxLen).1.store := by
   induction fuel generalizing s with
   | zero => rw [popFrameC_zero]; exact h
   | succ n ih =>
@@ -118,36 +119,36 @@ theorem popFrameC_sr (sd : Stream → Nat → Nat → Stream × List String × B
       case hx => exact hsd _ _ _
       ev
 
-theorem popFrame_sr (fuel : Nat) (maxLen : Nat) (h : Evolves SRel RInv a s.store) :
-    Evolves SRel RInv a (Streams.popFrame fuel s maxLen).1.store := by
+theorem popFrame_sr (fuel : Nat) (maxLen : Nat) (h : Evolves (SRel D) RInv a s.store) :
+    Evolves (SRel D) RInv a (Streams.popFrame fuel s maxLen).1.store := by
   rw [popFrameC.eq]; exact popFrameC_sr _ coreEq_sendData fuel maxLen h
 macro_rules | `(tactic| ev_step) => `(tactic| with_reducible apply popFrame_sr)
 
 
-theorem reclaimFrameInner_sr (h : Evolves SRel RInv a s.store) (f : DataFrame) :
-    Evolves SRel RInv a (s.reclaimFrameInner f).1.store := by
+theorem reclaimFrameInner_sr (h : Evolves (SRel D) RInv a s.store) (f : DataFrame) :
+    Evolves (SRel D) RInv a (s.reclaimFrameInner f).1.store := by
   unfold Streams.reclaimFrameInner; ev
 macro_rules | `(tactic| ev_step) => `(tactic| with_reducible apply reclaimFrameInner_sr)
 
-theorem reclaimFrame_sr (h : Evolves SRel RInv a s.store) (w : Writer) :
-    Evolves SRel RInv a (s.reclaimFrame w).1.store := by
+theorem reclaimFrame_sr (h : Evolves (SRel D) RInv a s.store) (w : Writer) :
+    Evolves (SRel D) RInv a (s.reclaimFrame w).1.store := by
   unfold Streams.reclaimFrame; ev
 macro_rules | `(tactic| ev_step) => `(tactic| with_reducible apply reclaimFrame_sr)
 
-theorem bufferOut_sr (h : Evolves SRel RInv a s.store) (w : Writer) (f : Streams.OutFrame) :
-    Evolves SRel RInv a (s.bufferOut w f).1.store := by
+theorem bufferOut_sr (h : Evolves (SRel D) RInv a s.store) (w : Writer) (f : Streams.OutFrame) :
+    Evolves (SRel D) RInv a (s.bufferOut w f).1.store := by
   unfold Streams.bufferOut; ev
 macro_rules | `(tactic| ev_step) => `(tactic| with_reducible apply bufferOut_sr)
 
-theorem prioBufferPendingLoop_sr (fuel : Nat) (w : Writer) (h : Evolves SRel RInv a s.store) :
-    Evolves SRel RInv a (Streams.prioBufferPendingLoop fuel s w).1.store := by
+theorem prioBufferPendingLoop_sr (fuel : Nat) (w : Writer) (h : Evolves (SRel D) RInv a s.store) :
+    Evolves (SRel D) RInv a (Streams.prioBufferPendingLoop fuel s w).1.store := by
   induction fuel generalizing s w with
   | zero => unfold Streams.prioBufferPendingLoop; ev
   | succ n ih => unfold Streams.prioBufferPendingLoop; ev
 macro_rules | `(tactic| ev_step) => `(tactic| with_reducible apply prioBufferPendingLoop_sr)
 
-theorem prioBufferPending_sr (fuel : Nat) (w : Writer) (h : Evolves SRel RInv a s.store) :
-    Evolves SRel RInv a (Streams.prioBufferPending fuel s w).1.store := by
+theorem prioBufferPending_sr (fuel : Nat) (w : Writer) (h : Evolves (SRel D) RInv a s.store) :
+    Evolves (SRel D) RInv a (Streams.prioBufferPending fuel s w).1.store := by
   unfold Streams.prioBufferPending; ev
 macro_rules | `(tactic| ev_step) => `(tactic| with_reducible apply prioBufferPending_sr)
 
